@@ -24,3 +24,26 @@ func kernPairWF(k *KernPair) bool {
 //@ safety C10
 //@ requires m != nil && w != nil
 //@ ensures [C13.afm.write] !old(wfault()) && result == nil ==> !wfault()
+
+// ---------------------------------------------------------------------
+// C19: query methods
+
+//@ func (*Metrics).NumGlyphs
+//@ safety C19
+//@ requires f != nil
+//@ ensures [C19.num] (has(f.Glyphs, ".notdef") ==> result == len(f.Glyphs)) && (!has(f.Glyphs, ".notdef") ==> result == len(f.Glyphs) + 1)
+
+//@ func (*Metrics).GlyphList
+//@ safety C19
+//@ requires f != nil
+//@ ensures [C19.list.len] len(result) == f.NumGlyphs()
+//@ loop 1 invariant f != nil && order != nil
+//@ loop 2 invariant f != nil && order != nil
+
+//@ func (*Metrics).GlyphList$1
+//@ requires 0 <= i && i < len(glyphNames) && 0 <= j && j < len(glyphNames)
+
+//@ func (*Metrics).GlyphWidthPDF
+//@ safety C19
+//@ requires f != nil
+//@ ensures [C19.width] (has(f.Glyphs, name) && f.Glyphs[name] != nil ==> result == f.Glyphs[name].WidthX) && (!(has(f.Glyphs, name) && f.Glyphs[name] != nil) && has(f.Glyphs, ".notdef") && f.Glyphs[".notdef"] != nil ==> result == f.Glyphs[".notdef"].WidthX) && (!(has(f.Glyphs, name) && f.Glyphs[name] != nil) && !(has(f.Glyphs, ".notdef") && f.Glyphs[".notdef"] != nil) ==> result == 0)
